@@ -41,7 +41,70 @@ pub fn gen_honest_seeder(r: &mut Rng, id: [u8; 20], have: Vec<bool>, incoming: b
     c
 }
 
+/// Family: few pieces (end-game from the start), two honest peers that both offer the common pieces
+/// — so they are regularly asked for the same piece and one of them is cancelled — while one of
+/// them reveals, by Have, a piece that only it can give.
+pub fn gen_endgame_exclusive(r: &mut Rng, seed: u64) -> Scenario {
+    let n = r.range(2, 6) as usize;
+    let piece_len = 16384 * r.range(1, 3) as usize + r.range(1, 16384) as usize;
+    let total = (n - 1) * piece_len + r.range(1, piece_len as u64) as usize;
+    let content = crate::torrent::distinct_content(r, total, piece_len);
+    let torrent = Rc::new(Torrent::build(piece_len, "out.bin", vec![("out.bin".into(), total)], true, content, "http://sim.invalid/announce"));
+    let q = r.usize(n);
+    let mut peers = vec![];
+    let mut a = SeederCfg::honest(peer_id(0), (0..n).map(|i| i != q || n == 1).collect());
+    a.unchoke_after_ms = Some(0);
+    a.latency_ms = (0, 10);
+    a.idle_close_ms = 40_000;
+    let mut b = SeederCfg::honest(peer_id(1), vec![true; n]);
+    b.unchoke_after_ms = Some(0);
+    b.latency_ms = (30, 400);
+    b.initial_advert = Some((0..n).map(|i| i != q).collect());
+    b.timed_haves = vec![(r.range(50, 600), q)];
+    b.idle_close_ms = 40_000;
+    // half of the time B never goes away and keeps its connection alive with harmless messages:
+    // nothing but the client's own bookkeeping can then get the exclusive piece
+    if r.chance(1, 2) { b.chatter_ms = Some(r.range(20_000, 110_000)); b.idle_close_ms = 100_000_000; }
+    let pdesc = vec![json!({"addr": addr(0), "essential": true, "pieces": "all but the exclusive one", "latency_ms": [0, 10]}), json!({"addr": addr(1), "essential": true, "pieces": "all; the exclusive piece is announced by Have some 50..600 ms after connecting", "exclusive_piece": q, "latency_ms": [30, 400], "stays_connected_for_ever": b.chatter_ms})];
+    for (k, c) in [a, b].into_iter().enumerate() {
+        let c2 = c.clone();
+        peers.push(PeerSpec { addr: addr(k), id: peer_id(k), entry: Entry::Dialled { from_announce: 0 }, make: Box::new(move |nth| if nth > 3 { None } else { Some(seeder(c2.clone())) }), chunk: 0, pipe: 1 << 20 });
+    }
+    let desc = json!({"seed": seed, "family": "endgame-cancel-then-exclusive-piece", "piece_length": piece_len, "pieces": n, "total": total, "peers": pdesc});
+    Scenario { cfg: SimCfg { torrent, peers, tracker: vec![], failpoints: if r.chance(1, 2) { Some(r.next()) } else { None }, max_virtual_ms: 600_000 + 360_000 * 3, stop_on_extract: true, linger_ms: 200, disk_on: disk_never, seed, tracker_fn: None, driver: None }, desc, sig: hash64(&("endgame-exclusive", n, piece_len / 16384)) }
+}
+
+/// Family: one to three pieces and many honest peers that all have everything: several of them
+/// finish the same piece almost simultaneously, right when the download completes.
+pub fn gen_many_seeders_few_pieces(r: &mut Rng, seed: u64) -> Scenario {
+    let n = r.range(1, 3) as usize;
+    let piece_len = match r.below(3) { 0 => r.range(100, 16384) as usize, 1 => 16384 + r.range(1, 16384) as usize, _ => r.range(8, 64) as usize };
+    let total = (n - 1) * piece_len + r.range(1, piece_len as u64) as usize;
+    let content = crate::torrent::distinct_content(r, total, piece_len);
+    let torrent = Rc::new(Torrent::build(piece_len, "out.bin", vec![("out.bin".into(), total)], true, content, "http://sim.invalid/announce"));
+    let np = r.range(6, 14) as usize;
+    let mut peers = vec![];
+    let mut pdesc = vec![];
+    for k in 0..np {
+        let mut c = SeederCfg::honest(peer_id(k), vec![true; n]);
+        c.unchoke_after_ms = match r.below(3) { 0 => Some(0), 1 => Some(r.range(1, 50)), _ => None };
+        c.latency_ms = match r.below(3) { 0 => (0, 0), 1 => (0, 5), _ => (1, 30) };
+        c.idle_close_ms = 20_000 + r.below(20_000);
+        pdesc.push(json!({"addr": addr(k), "essential": true, "pieces": "all", "latency_ms": [c.latency_ms.0, c.latency_ms.1], "unchoke_after_ms": c.unchoke_after_ms}));
+        let c2 = c.clone();
+        peers.push(PeerSpec { addr: addr(k), id: peer_id(k), entry: Entry::Dialled { from_announce: 0 }, make: Box::new(move |nth| if nth > 3 { None } else { Some(seeder(c2.clone())) }), chunk: 0, pipe: 1 << 20 });
+    }
+    let desc = json!({"seed": seed, "family": "many-seeders-few-pieces", "piece_length": piece_len, "pieces": n, "total": total, "peers": pdesc});
+    Scenario { cfg: SimCfg { torrent, peers, tracker: vec![], failpoints: if r.chance(1, 2) { Some(r.next()) } else { None }, max_virtual_ms: 600_000 + 360_000 * 3, stop_on_extract: true, linger_ms: 200, disk_on: disk_never, seed, tracker_fn: None, driver: None }, desc, sig: hash64(&("many-seeders", n, np, piece_len / 16384)) }
+}
+
 pub fn gen_scenario(r: &mut Rng, seed: u64) -> Scenario {
+    if r.chance(1, 8) {
+        return gen_endgame_exclusive(r, seed);
+    }
+    if r.chance(1, 7) {
+        return gen_many_seeders_few_pieces(r, seed);
+    }
     let small = r.chance(1, 2);
     let maxp = if r.chance(1, 3) { 30 } else { 12 };
     let torrent = Rc::new(gen_sim_torrent(r, maxp, small));
